@@ -459,7 +459,7 @@ PROPS['C02'] = dict(
                'implies what pass 2 requires and that both passes agree on the address of every item.',
     level_note='parser/segment creation: unit DIR #org #seg_switch + witnesses; `.org 0` after code is a recorded finding',
     technique='Verus loop invariants on extracted pass_1_internal/build_pass_1/pass_2_internal/build_pass_2 against recursive layout and fold oracles',
-    verus=['pass1', 'pass2', 'link', 'data', 'encv'],
+    verus=['pass1', 'pass2', 'link', 'data', 'encv', 'dir'],
     witnesses=witnesses_layout,
     functions=['builder::pass1::{build_pass_1, pass_1_internal, next_address}', 'builder::pass2::{build_pass_2, pass_2_internal}',
                'directive::{Operand::*, GetData for Vec<Operand>}', 'instruction::process (length), Operation::info'],
@@ -597,6 +597,13 @@ def witnesses_c10(tier, seed):
         ('def_made_in_eseg', '.eseg\n.def t = r18\n.db 1\n.cseg\n ldi t, 1\n', dict(code='21e0')),
         ('undef_in_dseg_then_use_fails', '.def t = r18\n.dseg\n.undef t\n.cseg\n ldi t, 1\n', 'error'),
         ('label_in_two_memories_fails', '.dseg\nbuf: .byte 2\n.cseg\nbuf: nop\n', 'error'),
+        ('undefined_right_of_false_and', '.db 0 && nosuch, 0\n', 'error'),
+        ('undefined_right_of_true_or', '.db 1 || nosuch, 0\n', 'error'),
+        ('undefined_left_of_or', '.db nosuch || 1, 0\n', 'error'),
+        ('undefined_in_function_argument', '.db low(nosuch), 0\n', 'error'),
+        ('undefined_times_zero', '.db 0 * nosuch, 0\n', 'error'),
+        ('undefined_behind_equ', '.equ a = nosuch + 1\n.db a, 0\n', 'error'),
+        ('undef_mixed_case_then_redefine', '.def Tmp = r16\n.undef TMP\n.def tmp = r17\n mov tmp, r0\n', dict(code='102d')),
         ('set_sees_latest_preceding', '.set k = 5\n.db k, 0\n.set k = k * 2\n.db k, 0\n.set K = k + 1\n.db k, 0\n', dict(code='05000a000b00')),
     ]
     res = replay.run_jobs(['build\n' + c[1] for c in cases])
@@ -618,7 +625,7 @@ PROPS['C10'] = dict(
     level_note='lower() is uninterpreted (idempotent); that the grammar lower-cases label names and that .equ is stored at parse time '
                '(Directive::Equ) are outside the units: witnesses only',
     technique='Verus contracts on the extracted table getters/setters (R9 table view) + the fold/recursive oracles of EXPR, PASS1, PASS2',
-    verus=['ctxu', 'expr', 'pass1', 'pass2', 'encv'],
+    verus=['ctxu', 'expr', 'pass1', 'pass2', 'encv', 'dir'],
     witnesses=witnesses_c10,
     functions=['context::{CommonContext getters/setters, Context::get_expr, Context::exist}', 'Expr::run (Ident arm)', 'pass_1_internal (Label arm)',
                'pass_2_internal (Set/Def/Undef arms)', 'InstructionOps::get_r8'],
